@@ -73,7 +73,7 @@ def run(tier, seed, flavour="plain", prop="C09"):
     od = core.run_dir(prop, tier)
     paths = core.build(targets(flavour))
     res = core.run_sharded([{"name": "c09_tensor", "binary": paths["c09_tensor"], "nshards": core.NCPU, "out": od,
-                             "args": ["--seed", str(seed), "--tier", tier] + core.deep(tier, nint=2400000, nreal=400000),
+                             "args": ["--seed", str(seed), "--tier", tier] + core.deep(tier, nint=2400000, nreal=400000) + core.boost(tier, flavour, nint=64000, nreal=16000),
                              "env": core.SAN_ENV if flavour == "san" else None}], timeout=3600)
     V.absorb(res)
     m = core.merge_summaries(res)
